@@ -453,3 +453,112 @@ def translate(repo):
 if __name__ == "__main__":
     import sys
     print(translate(sys.argv[1] if len(sys.argv) > 1 else "/repo"))
+
+
+# ---------------------------------------------------------------------------------------------------------------
+# Engine.to_function itself: the scan that only raises is skipped (T5 reads it), the rest is translated statement by
+# statement: the dictionary comprehensions over net.states / actions / disturbances / next_states, the calls of the four
+# helpers (those that mutate the lists they are handed return them), `if parameters:` / `if more_out:`, and the
+# positions of the four lists in the final `cs.Function("F", <values in>, <values out>, <names in>, <names out>, ...)`.
+def _only_raises(st):
+    return isinstance(st, ast.For) and not st.orelse and all(
+        isinstance(b, ast.If) and not b.orelse and len(b.body) == 1 and isinstance(b.body[0], ast.Raise) for b in st.body)
+
+
+def translate_to_function(tree):
+    cls = next((c for c in tree.body if isinstance(c, ast.ClassDef) and c.name == "Engine"), None)
+    fn = next((f for f in (cls.body if cls else []) if isinstance(f, ast.FunctionDef) and f.name == "to_function"), None)
+    if fn is None:
+        raise Unsupported("Engine.to_function not found")
+    names = [a.arg for a in fn.args.args]
+    if names != ["self", "net", "compact", "more_out", "parameters"] or not fn.args.kwarg or fn.args.kwarg.arg != "other_parameters" \
+            or [ast.unparse(d) for d in fn.args.defaults] != ["0", "False", "None"]:
+        raise Unsupported("to_function: parameters / defaults are not (self, net, compact=0, more_out=False, parameters=None, **other_parameters)")
+    body = [s for s in fn.body if not (isinstance(s, ast.Expr) and isinstance(s.value, ast.Constant))]
+    if not body or not _only_raises(body[0]):
+        raise Unsupported("to_function: does not start with the readiness scan (a loop that only raises)")
+    lines = []
+    have = {"parameters": "optdict"}          # variable -> kind
+    groups = {"states": "states", "actions": "actions", "disturbances": "disturbances", "next_states": "next_states"}
+    for st in body[1:]:
+        src = ast.unparse(st)
+        if isinstance(st, ast.If) and src.replace("\n", " ").split() == "if parameters is None: parameters = {}".split():
+            lines.append("let parameters := match parameters with Some p_ => p_ | None => [] end in")
+            have["parameters"] = "dict"
+            continue
+        if isinstance(st, ast.Assign) and len(st.targets) == 1 and isinstance(st.targets[0], ast.Name) and isinstance(st.value, ast.DictComp):
+            x, dc = st.targets[0].id, st.value
+            g = dc.generators[0]
+            ok = len(dc.generators) == 1 and not g.ifs and isinstance(g.target, ast.Tuple) and len(g.target.elts) == 2 \
+                and all(isinstance(e, ast.Name) for e in g.target.elts) and isinstance(dc.key, ast.Name) and dc.key.id == g.target.elts[0].id \
+                and isinstance(g.iter, ast.Call) and not g.iter.args and isinstance(g.iter.func, ast.Attribute) and g.iter.func.attr == "items" \
+                and isinstance(g.iter.func.value, ast.Attribute) and isinstance(g.iter.func.value.value, ast.Name) \
+                and g.iter.func.value.value.id == "net" and g.iter.func.value.attr in groups
+            if ok:
+                el, vs = (e.id for e in g.target.elts)
+                v = ast.unparse(dc.value)
+                flt = {f"_filter_vars({vs})": "filter_indep", f"_filter_vars({vs}, independent=False)": "filter_any",
+                       f"_filter_vars({vs}, independent=True)": "filter_indep", f"_filter_vars({vs}, False)": "filter_any"}.get(v)
+                if flt:
+                    lines.append(f"let {x} := map (fun '({el}, {vs}) => ({el}, {flt} {vs})) net_{g.iter.func.value.attr} in")
+                    have[x] = "ddict"
+                    continue
+            raise Unsupported(f"to_function: comprehension {src[:70]!r}")
+        if isinstance(st, ast.Assign) and len(st.targets) == 1 and isinstance(st.targets[0], ast.Tuple) and isinstance(st.value, ast.Call) \
+                and isinstance(st.value.func, ast.Name) and st.value.func.id in ("_gather_inputs", "_gather_outputs") and not st.value.keywords:
+            a, b = (e.id for e in st.targets[0].elts)
+            args = [ast.unparse(z) for z in st.value.args]
+            want = ["ddict"] * (3 if st.value.func.id == "_gather_inputs" else 1)
+            if [have.get(z) for z in args[:-1]] != want or args[-1] != "compact":
+                raise Unsupported(f"to_function: call {src[:70]!r}")
+            lines.append(f"let '({a}, {b}) := gen{st.value.func.id} {' '.join(args)} in")
+            have[a], have[b] = "lstr", "lV"
+            continue
+        if isinstance(st, ast.If) and not st.orelse and len(st.body) == 1 and isinstance(st.body[0], ast.Expr) \
+                and isinstance(st.body[0].value, ast.Call) and isinstance(st.body[0].value.func, ast.Name):
+            c = st.body[0].value
+            test = ast.unparse(st.test)
+            args = [ast.unparse(z) for z in c.args]
+            if c.func.id == "_add_parameters_to_inputs" and test == "parameters" and have.get("parameters") == "dict" and not c.keywords \
+                    and len(args) == 4 and [have.get(z) for z in args[:3]] == ["lstr", "lV", "dict"] and args[3] == "compact":
+                lines.append(f"let '({args[0]}, {args[1]}) := if negb (isnil_ parameters) then gen_add_parameters_to_inputs {' '.join(args)} "
+                             f"else ({args[0]}, {args[1]}) in")
+                continue
+            if c.func.id == "_add_flows_to_outputs" and test == "more_out" and not c.keywords and len(args) == 7 \
+                    and [have.get(z) for z in args[:2]] == ["lstr", "lV"] and args[2:] == ["self", "net", "parameters", "other_parameters", "compact"] \
+                    and have.get("parameters") == "dict":
+                lines.append(f"match (if more_out then gen_add_flows_to_outputs "
+                             f"{args[0]} {args[1]} parameters compact else Some ({args[0]}, {args[1]})) with\n  | None => None\n  | Some ({args[0]}, {args[1]}) =>")
+                lines.append("@@close")
+                continue
+            raise Unsupported(f"to_function: conditional call {src[:70]!r}")
+        if isinstance(st, ast.Return) and isinstance(st.value, ast.Call) and ast.unparse(st.value.func) == "cs.Function" and not st.value.keywords:
+            args = st.value.args
+            if len(args) != 6 or not (isinstance(args[0], ast.Constant) and isinstance(args[0].value, str)):
+                raise Unsupported("to_function: cs.Function is not called with (name, values in, values out, names in, names out, options)")
+            a = [ast.unparse(z) for z in args[1:5]]
+            if [have.get(z) for z in a] != ["lV", "lV", "lstr", "lstr"]:
+                raise Unsupported(f"to_function: cs.Function arguments {a}")
+            # CasADi: Function(name, ex_in, ex_out, name_in, name_out, opts)
+            lines.append(f"Some (combine {a[2]} {a[0]}, combine {a[3]} {a[1]})")
+            break
+        raise Unsupported(f"to_function: statement {src[:70]!r}")
+    else:
+        raise Unsupported("to_function: no `return cs.Function(...)`")
+    nclose = lines.count("@@close")
+    lines = [l for l in lines if l != "@@close"]
+    body_s = "\n  ".join(lines) + "\n  end" * nclose
+    return ("Definition gen_to_function (net_states net_actions net_disturbances net_next_states : list (E * list (string * V)))\n"
+            "    (filter_indep filter_any : list (string * V) -> list (string * V))\n"
+            "    (compact : Z) (more_out : bool) (parameters : option (list (string * V)))\n"
+            "  : option (list (string * V) * list (string * V)) :=\n  " + body_s + ".")
+
+
+_translate_helpers = translate
+
+
+def translate(repo):          # noqa: F811  (the helpers' text with to_function added inside the section)
+    text = _translate_helpers(repo)
+    tree = ast.parse(open(os.path.join(repo, "src/sym_metanet/engines/casadi.py")).read())
+    tf = translate_to_function(tree)
+    return text.replace("End Gen.", "Definition isnil_ {T} (l : list T) : bool := match l with [] => true | _ => false end.\n\n" + tf + "\n\nEnd Gen.")
